@@ -86,6 +86,10 @@ def run(prop, tier, seed, rep):
         x = decode_checks.GENERATORS[p](random.Random(rng.getrandbits(32)), "quick")
         rng.shuffle(x)
         inputs += x[:k if tier == "quick" else k * 10]
+    # one frame of every shape the decoder distinguishes, twice (other bits random)
+    import bits_checks
+    for k in (1, 2):
+        inputs += [{"bytes": list(b)} for b in bits_checks.shape_frames(random.Random(seed * 13 + k))]
     hx = core.build_hx("std")
     events = core.run_hx(hx, ["decode", "--text", "--ops"], inputs)
     for e in events:
